@@ -34,6 +34,7 @@ inductive Op where
   | monitor (c : Nat)    -- watch loop stored a confirmed nonce
   | restart
   | cancel               -- CancelTx of an earlier transaction: a replacement reusing that nonce is submitted
+  | monitorFailed        -- a watch-loop round whose confirmed-nonce query failed: nothing is stored
   deriving Repr, DecidableEq
 
 /-- observable events (what reaches the chain node and what the caller is told) -/
@@ -43,6 +44,7 @@ inductive Ev where
   | mon (c : Nat)
   | restarted
   | cancelled
+  | monFailed
   deriving Repr, DecidableEq
 
 /-- `getNonce` after the pending answer `p` arrived, as a function of the counter -/
@@ -65,6 +67,7 @@ def step (s : St) : Op → St × Ev
   | .monitor c => ({ s with confirmed := c }, .mon c)
   | .restart => (init, .restarted)
   | .cancel => (s, .cancelled)      -- CancelTx touches neither the counter nor the monitor's word
+  | .monitorFailed => (s, .monFailed)   -- `continue` before lastConfirmedNonce.Store
 
 def run : St → List Op → List Ev
   | _, [] => []
